@@ -75,7 +75,7 @@ TRUSTED = ["pandas.read_csv / DataFrame.to_csv below the line level (field split
 
 SIG_NL = "read_csv:line-terminator-inside-quoted-field:block-boundary-splits-the-field"
 SIG_FIRST = "read_csv:first-block-ends-before-the-header-row-or-the-skipped-rows:raises-or-keeps-skipped-rows"
-SIG_EMPTY = "read_csv:names=:empty-first-file:raises-where-pandas-returns-an-empty-frame"
+SIG_SAMPLE = "read_csv:skiprows+blocksize<sample:sample-cut-to-the-blocksize:header-or-head-outside-the-sample:raises"
 SAMPLE = 256000
 
 
@@ -304,8 +304,11 @@ def case_blocks(ctx, inp):
             real = ["raised", U.exc_name(e)]
     ctx.eq("read_csv raises / answers (model of read_pandas + _read_csv)", model[0], real[0])
     sig = None if covered else SIG_FIRST
-    if covered and kw[1] and files and not files[0]:
-        sig = SIG_EMPTY                       # nothing to read in the first file, names given: pandas returns an empty frame
+    if covered and kw[2] and bs and bs < SAMPLE and files:
+        # skiprows with a small blocksize: the sample is cut to the blocksize; does read_pandas get past the sample?
+        probe = ctx.lean(Sym("csv-header-probe"), _kw_lean(kw), SAMPLE, list(files[0]), bs)
+        if probe[0] == "raised" and probe[1] != "sample":
+            sig = SIG_SAMPLE
     if real[0] == "raised":
         if pandas_ok:
             # pandas reads the files, dask raises: allowed only for the documented sample error with skiprows
@@ -708,8 +711,8 @@ def _gen_blocks(ctx):
         kw = _rand_kw(rng, matrix_only=rng.random() < 0.6)
         yield "blocks", {"files": files, "kw": kw, "bs": rng.choice([None, 1, 2, 3, 4, 5, 7, 10, 16, 40])}
     if ctx.thorough():
-        # exhaustive small space: every rectangular file of <= 6 bytes over {h, 1, ',', '\n'} x every blocksize x 4 keyword sets
-        for t in _all_texts("h1,\n", 6):
+        # exhaustive small space: every rectangular file of <= 5 bytes over {h, 1, ',', '\n'} x every blocksize x 4 keyword sets
+        for t in _all_texts("h1,\n", 5):
             if t and _rectangular(t):
                 for bs in range(1, len(t) + 1):
                     for kw in (["absent", False, 0], [0, True, 0], ["none", False, 0], ["absent", True, 0]):
